@@ -16,6 +16,7 @@ func init() {
 	vrt.Register("C15_shift", Shift)
 	vrt.Register("C15_positions", Positions)
 	vrt.Register("C15_input_ends_in_tag", InputEndsInTag)
+	vrt.Register("C15_first_line_of_multiline_tag", FirstLineOfMultilineTag)
 }
 
 func itoa(n int) string { return strconv.Itoa(n) }
@@ -211,5 +212,38 @@ func InputEndsInTag() {
 	n, _ := lineOf(msg)
 	vrt.Assert(n >= 1, "the error starts with 'line N:'")
 	vrt.Assert(n == 1+newlines(pre), "N is the line on which the unfinished tag begins")
+	vrt.Cover("done")
+}
+
+// a tag that continues over further lines: when the failing statement stands on
+// the tag's first line, that line is N under either reading of the statement
+// (line of the tag / line of the statement), also when the failing token is the
+// last thing before the line break
+var failingStatements = []string{
+	"let v = foo", "let v = fail()", "let v = 1 + \"a\"", "let v = xs[9]", "let v = 1 / 0", "let v = 1.2.3", "let v = .1.2",
+	"let v = one.Nope", "nope = 1", "let = 3", "foo", "fail()", "let v = 1.2.3 ", "let v = fail( )",
+}
+
+func FirstLineOfMultilineTag() {
+	pre := filler(2)
+	if vrt.Tier() > 0 {
+		pre = preamble(1)
+	}
+	st := failingStatements[vrt.Choice(len(failingStatements))]
+	seps := []string{"\n", "\r\n", "\n\n", "\n   ", ";\n"}
+	sep := seps[vrt.Choice(len(seps))]
+	rests := []string{"let w = 2", "let w = 2\n let u = 3", "# note\n let w = 2"}
+	rest := rests[vrt.Choice(len(rests))]
+	open := "<% "
+	if vrt.Bool() {
+		open = "<%= "
+	}
+	err := render(pre + open + st + sep + rest + " %>")
+	vrt.Assert(err != nil, "a faulty template is an error")
+	msg := err.Error()
+	vrt.Note("error", msg)
+	n, _ := lineOf(msg)
+	vrt.Assert(n >= 1, "the error starts with 'line N:'")
+	vrt.Assert(n == 1+newlines(pre), "a failing statement on the first line of a multi-line tag: N is that line")
 	vrt.Cover("done")
 }
